@@ -336,7 +336,8 @@ def slice_depth(tier):
 
 
 # ---------------------------------------------------------------- slice 6: how the files end
-TERMS = {"newline": "\n", "no-newline": "", "comment-no-newline": "\n/* last line is a comment */", "blank-lines": "\n\n\n\n"}
+TERMS = {"newline": "\n", "no-newline": "", "comment-no-newline": "\n/* last line is a comment */", "line-comment-no-newline": "\n// last line is a comment",
+         "line-comment-after-code-no-newline": " // the failing line ends in a comment", "blank-lines": "\n\n\n\n"}
 
 
 def slice_termination(tier):
